@@ -58,6 +58,8 @@ IdlePass == [ active |-> FALSE, actor |-> "", target |-> "", oid |-> "", ouid |-
               gone404 |-> {},
               created |-> FALSE,
               pulled |-> "",                             \* package controller: class of the content pulled in this pass
+              phfirst |-> [ k \in Keys |-> NoRead ],   \* ObjectSet controller: FIRST read of each phase object in this pass
+              phw |-> <<>>,                             \* ObjectSet controller: its write requests on phase objects <<key, verb>>
               odw |-> <<>>,                             \* deployment controller: its write requests on ObjectSets, classified (DeployPlan ops)
               gcSeen |-> {},                            \* package controller: uids of the ObjectSets that existed when it listed them for slice GC
               sliceSeq |-> <<>>,                          \* package controller: <<name, content>> per chunk, in chunk order
@@ -66,7 +68,7 @@ IdlePass == [ active |-> FALSE, actor |-> "", target |-> "", oid |-> "", ouid |-
 Init == /\ l = 1
         /\ store = [ k \in Keys |-> Absent ]
         /\ pass = [ p \in PassIds |-> IdlePass ]
-        /\ lw = [ valid |-> FALSE, e |-> Trace[1], conf |-> TRUE ]
+        /\ lw = [ valid |-> FALSE, e |-> Trace[1], conf |-> TRUE, confR |-> TRUE ]
         /\ hist = [ succeeded |-> {}, archived |-> {}, creates |-> [ k \in Keys |-> 0 ], unpacked |-> [ k \in Keys |-> "" ] ]
         /\ scen = NoRow
 
@@ -141,7 +143,7 @@ DeploymentOf(o) == o.cr.depKey
 
 E == Trace[l]
 IsEv(name) == l <= Len(Trace) /\ E.ev = name
-Advance == l' = l + 1 /\ lw' = [ valid |-> TRUE, e |-> E, conf |-> TRUE ]
+Advance == l' = l + 1 /\ lw' = [ valid |-> TRUE, e |-> E, conf |-> TRUE, confR |-> TRUE ]
 
 SetStore(k, o) == store' = [ store EXCEPT ![k] = o ]
 
@@ -222,11 +224,30 @@ ConfDeployOK(e) ==
     => LET exp == DP!Plan(PlanSnapOf(pr), PlanL(pr))
        IN IF e.res = "ok" /\ ~pr.apiErr THEN pr.odw = exp ELSE IsPrefixOf(pr.odw, exp)
 
+\* Conformance of the ObjectSet controller's handling of delegated phases with RemotePhase!RemoteOp: for every phase
+\* object the phase loop reached, the write it requested (create / pause patch / none) is the one the decision
+\* function computes from the first read of that object in the pass.
+RP == INSTANCE RemotePhase
+PhRec(o) == [ ex |-> o.exists, paused |-> IF o.exists THEN o.cr.paused ELSE FALSE, gen |-> o.gen, avail |-> "none", availGen |-> 0 ]
+ConfRemoteOK(e) ==
+    LET pr == pass[e.actor] IN
+    (IsSetActor(e.actor) /\ e.ev = "PassEnd" /\ pr.hasSnap /\ Rollout(pr))
+    => \A j \in 1..NPhases(pr) :
+         (IsDelegated(pr, j) /\ pr.snap.cr.phases[j].phaseKey \in Keys /\ pr.phfirst[pr.snap.cr.phases[j].phaseKey].valid
+            /\ \A i \in 1..(j - 1) : \A x \in PhaseWriteKeys(pr, i) : pr.obs[x].valid /\ pr.obs[x].present /\ pr.obs[x].passes)
+         => LET k == pr.snap.cr.phases[j].phaseKey
+                op == RP!RemoteOp(SnapPaused(pr), PhRec(pr.phfirst[k].o))
+                did(v) == \E i \in DOMAIN pr.phw : pr.phw[i] = <<k, v>>
+                any == \E i \in DOMAIN pr.phw : pr.phw[i][1] = k
+            IN IF e.res = "ok" /\ ~pr.apiErr
+                 THEN (op = "create" => did("Create")) /\ (op = "patch" => did("MergePatch")) /\ (op = "none" => ~any)
+                 ELSE any => ((op = "create" /\ did("Create")) \/ (op = "patch" /\ did("MergePatch")))
+
 TrPassEnd ==
     /\ (IsEv("PassEnd") \/ IsEv("Panic") \/ IsEv("Timeout"))
     /\ pass' = [ pass EXCEPT ![E.actor].active = (E.ev = "Panic") ]
     /\ UNCHANGED <<store, hist, scen>>
-    /\ l' = l + 1 /\ lw' = [ valid |-> TRUE, e |-> E, conf |-> ConfDeployOK(E) ]
+    /\ l' = l + 1 /\ lw' = [ valid |-> TRUE, e |-> E, conf |-> ConfDeployOK(E), confR |-> ConfRemoteOK(E) ]
 
 \* misc harness events that carry no state
 TrNote ==
@@ -270,6 +291,7 @@ TrRead ==
           ELSE IF IsSetActor(pr.actor) /\ pr.hasSnap
                   /\ (\E j \in 1..NPhases(pr) : IsDelegated(pr, j) /\ k = pr.snap.cr.phases[j].phaseKey)
             THEN pass' = [ pass EXCEPT ![p].reads[k] = [ valid |-> TRUE, o |-> o ],
+                                       ![p].phfirst[k] = IF @.valid THEN @ ELSE [ valid |-> TRUE, o |-> o ],
                                        ![p].unc[k] = IF E.role = "uncached" THEN [ valid |-> TRUE, o |-> o ] ELSE @,
                                        ![p].obs[k] = IF Rollout(pr) /\ ~pr.obs[k].valid THEN RemoteObs(o) ELSE @,
                                        ![p].calls = @ + 1 ]
@@ -369,6 +391,9 @@ TrWrite ==
                                     IN IF Len(@) > 0 /\ @[Len(@)].content = c.content THEN [ @ EXCEPT ![Len(@)] = c ] ELSE Append(@, c)
                                ELSE @,
              ![p].clash = IF IsDepActor(pr.actor) /\ E.ev = "Create" /\ E.res = "AlreadyExists" THEN k ELSE @,
+             ![p].phw = IF IsSetActor(pr.actor) /\ ~E.dry /\ E.ev \in {"Create", "MergePatch", "Update", "Delete"}
+                           /\ (IF E.ev = "Create" THEN E.args.body.kind ELSE E.pre.kind) \in {"ObjectSetPhase", "ClusterObjectSetPhase"}
+                          THEN Append(@, <<k, E.ev>>) ELSE @,
              ![p].odw = IF IsDepActor(pr.actor) /\ ~E.dry /\ E.ev \in {"Create", "Update", "Delete"}
                            /\ (IF E.ev = "Create" THEN E.args.body.kind ELSE E.pre.kind) \in {"ObjectSet", "ClusterObjectSet", ""}
                           THEN Append(@, OdOp(pr, E, k)) ELSE @,
@@ -872,6 +897,7 @@ Inv_C08_SharedObjectNotDeleted ==
 ---------------------------------------------------------------------------
 (* Conformance of the deployment controller with DeployPlan!Plan (definitions next to TrPassEnd) *)
 Conf_DeployPlan == lw.conf
+Conf_RemotePhase == lw.confR
 
 ---------------------------------------------------------------------------
 (* C10 convergence: the end state the spec tracked (from the events of the disturbed run) equals the end state of
